@@ -22,6 +22,7 @@ then ` | ` 2-D arrays `LXxLY[...]` (j-major), then ` | ` matrices `RxC[...]` whe
   setscalar v IDX x | setscalarmask v m x | setvector v IDX d | setvectormask v m d
   ifelses v c x | ifelsev v c o | ro v | iadds v x | iaddv v d
   allocw w c00,c01,..  (array of w-component elements, cell by cell) | comp v k  (component array `.x/.y/...`)
+  elemset v i k x  (`e = a[i]; e.<component k> = x`) | allocfill x n  (`IntArray(x, n)`)
   IDX = i:<int> | s:<start>:<stop>:<step>   (N = None)
 slice normalisation alone (PySlice_GetIndicesEx):
   slice len start stop step            -> `ok start stop step slicelength [positions]` | `err ...`
@@ -117,6 +118,7 @@ def DState.dump (d : DState) : String :=
 def parseOp (t : List String) : Option Op :=
   match t with
   | ["alloc", v] => some (.alloc (parseVals v))
+  | ["allocfill", x, n] => some (.alloc (List.replicate n.toNat! (parseInt x)))   -- `IntArray(x, n)`: the fill constructor
   | ["allocc", v] => some (.alloc (parseVals v))     -- an array of the COMPONENT type of the vector class under test
   | ["alloci", v] => some (.alloc (parseVals v))     -- an IntArray (mask / choice) whatever the element type under test
   | ["len", v] => some (.len v.toNat!)
@@ -482,6 +484,19 @@ def handleComp (km : Bool) (d : DState) (t : List String) : DState × String :=
   | ["allocw", w, cells] =>
     let (h, v) := allocWide d.s.heap w.toNat! (parseVals cells)
     ({ d with s := ⟨h, d.s.env ++ [v]⟩ }, s!"new {d.s.env.length}")
+  | ["elemset", v, i, k, x] =>
+    -- `e = a[i]; e.<component k> = x`: the element of a WRITABLE class-typed array is handed out by reference (the write
+    -- lands in the array), that of a read-only array by value (the write is lost, nothing raises)
+    match v1 d v with
+    | .error e => (d, showErr e)
+    | .ok a =>
+      match canonicalIndex a.length (parseInt i) with
+      | .error e => (d, showErr e)
+      | .ok q =>
+        if !a.writable then (d, "ok") else
+        match (a.elemIndex q).bind (fun r => d.s.heap.wr a.buf (a.pos r + k.toNat!) (parseInt x)) with
+        | .ok h' => ({ d with s := ⟨h', d.s.env⟩ }, "ok")
+        | .error e => (d, showErr e)
   | ["comp", v, k] =>
     match (v1 d v).bind (fun a => compView km a k.toNat!) with
     | .ok c => ({ d with s := ⟨d.s.heap, d.s.env ++ [c]⟩ }, s!"new {d.s.env.length}")
@@ -508,7 +523,7 @@ partial def loop (cfg : Cfg) (km so : Bool) (stdin stdout : IO.FS.Stream) (d : D
     stdout.putStrLn "# varray-size-overloads"
     for l in witnessVSizeLines do stdout.putStrLn l
     loop cfg km so stdin stdout d
-  | "allocw" :: _ | "comp" :: _ =>
+  | "allocw" :: _ | "comp" :: _ | "elemset" :: _ =>
     let (d', out) := handleComp km d t
     stdout.putStrLn (out ++ ";" ++ d'.dump); loop cfg km so stdin stdout d'
   | "v" :: rest =>
